@@ -178,6 +178,18 @@ CLAIMED = {
               "values other than the four classes are assumed immutable primitives."),
         technique="Coq proof (soundness of an effect analysis w.r.t. a heap semantics) + generated IR table + write-trace/snapshot correspondence",
         design="7 C16"),
+    "C17": dict(
+        text=("Theorems (Props/C17.v): the regenerated directive table has exactly the eleven supported directives with the POSIX shapes "
+              "(reflection); any other %-letter anywhere in the format makes strftime and strptime fail with the library's syntax error; for "
+              "every valid point (any representation, time form incl. 24:00 and fractions, offset, mode) with civil year 0..9999 and every "
+              "format over the supported directives and literal text, strftime equals a POSIX strftime written in Spec/Posix.v applied to the "
+              "civil date-time defined from the Spec instant only; strptime of that text is the constructor call with absent fields defaulted "
+              "(year 0 / month 1 / day 1 / 00:00:00 / the configuration's zone), and for full formats it returns a point comparing Eq with "
+              "the original (whole-second points). Correspondence: random directive sequences, full and partial formats, unsupported letters."),
+        note=("strptime theorems exclude %s (parsed through float()) and are stated for the canonical text; a stray '%' in literal text is outside "
+              "the model; %s of an instant before the epoch with a fractional second was truncated toward zero by the package (defect F14)."),
+        technique="Coq proof (strftime = Spec POSIX rendering of the civil date-time; reflection over the generated directive table) + correspondence",
+        design="7 C17"),
     "C18": dict(
         text=("Theorems (Props/C18.v): for every whole-minute offset (no bound) the (hours, minutes) split is exact with both parts carrying "
               "the sign; DST selection rule; the three text forms denote the pair (finite reflection over the whole legal box, Z for "
